@@ -612,3 +612,59 @@ func payloadStableAcrossUserCode(c *Ctx, rule string) {
 		c.ok(rule, "payload-after-user-code", "", "no payload of a surviving cell is read again after program code ran without a new tag test")
 	}
 }
+
+// lexerByteIndex: the lexer reads single bytes of the program text at the cursor only.
+func lexerByteIndex(c *Ctx, rule string) {
+	p := c.P
+	c.note("%s lexer-byte-index: every single-byte read `l.src[e]` in a Lexer method is (a) `l.src[l.pos]` where atEnd() is known false (or l.pos < len(l.src)), (b) the byte just consumed `l.src[l.pos-1]` in advance — frozen exception: advance is only called where a byte is available (C12/R6 counts the steps; the cursor starts at 0 and only advance moves it) — or (c) the scan index of the position scan under i < len(l.src). A look-ahead `l.src[l.pos+1]` guarded by atEnd() alone reads past the end when the cursor is on the last byte.", rule)
+	n := 0
+	for _, fn := range p.Funcs {
+		if !p.InLang(fn) || p.inTestFile(fn) || fn.Signature.Recv() == nil || !strings.Contains(fn.Signature.Recv().Type().String(), "Lexer") {
+			continue
+		}
+		allInstrs(fn, func(in ssa.Instruction) {
+			var x, idx ssa.Value
+			switch v := in.(type) {
+			case *ssa.Index:
+				x, idx = v.X, v.Index
+			case *ssa.Lookup:
+				x, idx = v.X, v.Index
+			default:
+				return
+			}
+			if p.Render(x) != "l.src" {
+				return
+			}
+			n++
+			e := p.Render(idx)
+			key := "lexer-byte-index l.src[" + e + "] in " + shortName(fn)
+			F := FactsOf(fn).At(in.Block())
+			okIdx, why := false, ""
+			switch {
+			case e == "l.pos":
+				for f := range F {
+					if call, _ := callOf(f.cond); call != nil && staticCalleeIs(call, "(*lang.Lexer).atEnd") && !f.truth {
+						okIdx, why = true, "under !atEnd()"
+					}
+				}
+				for _, rl := range F.Rels() {
+					if rl.op == relLT && p.Render(rl.x) == "l.pos" && p.Render(rl.y) == "len(l.src)" {
+						okIdx, why = true, "under l.pos < len(l.src)"
+					}
+				}
+			case e == "(l.pos - 1)" && shortName(fn) == "(*lang.Lexer).advance":
+				okIdx, why = true, "exception: the byte just consumed (advance is called only where a byte is available)"
+			default:
+				for _, rl := range F.Rels() {
+					if rl.op == relLT && rl.x == idx && p.Render(rl.y) == "len(l.src)" {
+						okIdx, why = true, "under "+e+" < len(l.src)"
+					}
+				}
+			}
+			c.check(okIdx, rule, key, p.InstrPos(in), why, "the program text is indexed at "+e+" where that index is not known to be inside the text: at the end of the text (a program ending in the characters that lead here) this is a Go index-out-of-range panic")
+		})
+	}
+	if n < 2 {
+		c.undecided(rule, "lexer-byte-index instance-floor", "", fmt.Sprintf("%d byte reads of Lexer.src found, at least 2 expected (peek, advance)", n))
+	}
+}
